@@ -169,15 +169,18 @@ def finish(prop, agg, tier, seed, t0, extra_cov=None, caps_hit=None):
         cov.update(extra_cov)
     rc = 0
     lines = []
+    unconfirmed = []
     confirm_on = os.environ.get('VERIF_NO_CONFIRM') != '1'
     for i, (sig, cid, case, v, count, nscopes) in enumerate(unknown):
         path = write_replay(pid, sig, case, v)
         if confirm_on and i < 12:
             ok, out = confirm(pid, path)
             if not ok:
+                # never reported as a finding; the run is a harness error unless another violation is confirmed
                 print('HARNESS-ERROR property=%s: violation did not reproduce in a fresh '
                       'process: %s\n%s' % (pid, path, out))
-                return 2
+                unconfirmed.append(path)
+                continue
         lines.append('VIOLATION property=%s replay=%s' % (pid, path))
         print('VIOLATION property=%s replay=%s' % (pid, path))
         print('  signature=%s cases=%d first=%s' % (sig, count, core.jdump(case)[:400]))
@@ -191,8 +194,10 @@ def finish(prop, agg, tier, seed, t0, extra_cov=None, caps_hit=None):
     doc = {
         'property_id': pid, 'tier': tier, 'seed': int(seed), 'level': prop.LEVEL,
         'coverage': cov, 'assumptions': list(prop.ASSUMPTIONS),
-        'wall_s': round(wall, 3), 'violations': len(unknown),
+        'wall_s': round(wall, 3), 'violations': len(unknown) - len(unconfirmed),
     }
+    if unconfirmed and rc == 0:
+        rc = 2
     err = validate_evidence(json.loads(core.jdump(doc)))
     # (VERIF_EVIDENCE_DIR: the seeded-change workflow keeps runs against changed trees out of /verif/evidence)
     evdir = os.environ.get('VERIF_EVIDENCE_DIR') or os.path.join(ROOT, 'evidence')
